@@ -103,7 +103,10 @@ fn cram_indented(indent: &str, from: &str) -> String {
     if from.is_empty() {
         "".into()
     } else {
-        from.trim_end()
+        // only the final newline goes: whitespace-only lines at the end are
+        // expectations (of empty or blank output lines), too
+        from.strip_suffix('\n')
+            .unwrap_or(from)
             .split('\n')
             .map(|line| format!("{}{}", indent, line))
             .collect::<Vec<_>>()
